@@ -200,7 +200,7 @@ fn start_tracker(sw: u8, wm: u8, keep_alive: bool, max_scrape: usize) -> Tracker
     // with a port per worker, wait for every worker's port
     let t0 = std::time::Instant::now();
     'outer: loop {
-        if child.exited().is_some() || t0.elapsed() > Duration::from_secs(15) {
+        if child.exited().is_some() || t0.elapsed() > Duration::from_secs(90) {
             machinery_failure("http tracker did not start");
         }
         for w in 0..sw {
